@@ -661,7 +661,7 @@ ADDENDA = {
     "C14": "Width / precision sweep 0..300; the width and precision a method observes compared with fmt's; values that print differently at 32 and 64 bits.",
     "C15": RND + "Formatter errors that show the verb and the flags they are called with; errors with an empty message; pre-redacted operands (F9).",
     "C16": RND + "(through MCRoutes); a priming HelperForErrorf call before every route; writers that fail after a partial write; redactables with empty envelopes.",
-    "C17": RND + "(hook installed: no invocation for an error under Unsafe at any depth); hook kind silent (prints nothing: still the sole renderer).",
+    "C17": RND + "(hook installed: no invocation for an error under Unsafe at any depth); hook kind silent (prints nothing: still the sole renderer); surplus operands (no directive for them) that hold errors at top level, in slices, maps and exported interface fields, through Sprintf, Fprintf and StringBuilder.Printf.",
 }
 for _k, _v in ADDENDA.items():
     PROPS[_k]["rule"] = PROPS[_k]["rule"].rstrip() + " Later additions: " + _v
